@@ -199,6 +199,7 @@ def run_check(pid, tier, seed=0):
             opts.setdefault('timeout_ms', 60000 if tier == 'quick' else 300000)
             opts['seed'] = seed
             opts['known'] = [k for k in known if re.search(k.get('entry', '.*'), j['entry'])]
+            opts.setdefault('export_queries', 2 if tier == 'quick' else 8)
             opts.setdefault('entry_timeout', spec.get('entry_timeout', {}).get(tier, 600 if tier == 'quick' else 3000))
             jobs.append((irpath, fid, opts))
         nproc = int(os.environ.get('VERIF_PROCS', '16'))
@@ -256,6 +257,10 @@ def run_check(pid, tier, seed=0):
                     else:
                         mismatches.append({'harness': entry_key(r['entry']), 'native': row, 'symbolic_covers': w['covers'],
                                            'values': w['values'][:12]})
+        # second opinion: a sample of the discharged queries is re-decided by z3 4.8.12 and cvc5 from SMT-LIB2 text
+        xs = cross_solver(results, scratch, 12 if tier == 'quick' else 120)
+        for d in xs['disagreements'][:5]:
+            lines.append('INCONCLUSIVE property=%s solvers disagree on an exported query: %s' % (pid, json.dumps(d)[:300]))
         # concolic fall-back: paths the encoder could not finish are completed natively from the prefix input
         fb_confirmed = []
         if rc == 0:
@@ -380,7 +385,7 @@ def run_check(pid, tier, seed=0):
             lines.append('VACUOUS property=%s harness=%s cover %s not reached' % (pid, e, c))
         wall = time.time() - t_start
         write_evidence(pid, tier, seed, spec, ir, results, confirmed, unconfirmed, wall, known_hits=known_hits,
-                       fe_time=fe_time, vacuous=vac, missing=missing, selftest=st_res, validated=validated, mismatches=mismatches, notcomparable=notcomparable, violations=sum(viol_count.values()))
+                       fe_time=fe_time, vacuous=vac, missing=missing, selftest=st_res, cross=xs, validated=validated, mismatches=mismatches, notcomparable=notcomparable, violations=sum(viol_count.values()))
         tot_paths = sum(r['paths'] for r in results)
         tot_q = sum(r.get('solver', {}).get('queries', 0) for r in results)
         lines.append('property=%s tier=%s harness-instantiations=%d paths=%d solver-queries=%d wall=%.1fs exit=%d' % (
@@ -392,7 +397,7 @@ def run_check(pid, tier, seed=0):
 
 
 def write_evidence(pid, tier, seed, spec, ir, results, confirmed, unconfirmed, wall, known_hits=(), fe_time=0.0,
-                   vacuous=(), missing=(), note=None, violations=0, validated=0, mismatches=(), notcomparable=0, selftest=None):
+                   vacuous=(), missing=(), note=None, violations=0, validated=0, mismatches=(), notcomparable=0, selftest=None, cross=None):
     from . import stubs
     states = sum(r['paths'] for r in results)
     trans = sum(r['instrs'] for r in results)
@@ -425,6 +430,7 @@ def write_evidence(pid, tier, seed, spec, ir, results, confirmed, unconfirmed, w
             'states': max(states, 0), 'transitions': max(trans, 0),
             'traces_validated_against_impl': validated + len(confirmed) + sum(v.get('cases', 0) for v in (selftest or {}).values() if not v.get('mismatches')),
             'translator_selftest': selftest or {},
+            'cross_solver': cross or {},
             'path_witnesses': {'agreed_with_native_run': validated, 'mismatches': list(mismatches)[:10], 'not_comparable': notcomparable,
                                'rule': 'for up to 2 completed symbolic paths per harness instantiation the solver produces a concrete input of that path; the natively compiled harness must finish without a failed assertion and reach exactly the same Cover labels'},
             'samples': samples,
@@ -462,6 +468,40 @@ def write_evidence(pid, tier, seed, spec, ir, results, confirmed, unconfirmed, w
         ev['coverage']['note'] = note
     os.makedirs(EVDIR, exist_ok=True)
     json.dump(ev, open(os.path.join(EVDIR, pid + '.json'), 'w'), indent=1)
+
+
+def cross_solver(results, scratch, limit):
+    """re-decide exported queries with z3 4.8.12 (/usr/bin/z3) and cvc5 1.0; any '(error' or other answer = inconclusive"""
+    out = {'queries': 0, 'z3_4_8_12_agree': 0, 'cvc5_agree': 0, 'z3_other': 0, 'cvc5_other': 0, 'disagreements': [],
+           'solvers': ['z3 5.1.0 (deciding, in-process)', 'z3 4.8.12 (/usr/bin/z3)', 'cvc5 1.0 (/usr/bin/cvc5)']}
+    todo = []
+    for r in results:
+        for e in r.get('exports', []):
+            todo.append((entry_key(r['entry']), e))
+    # spread over harnesses
+    todo = todo[:: max(1, len(todo) // limit)][:limit] if todo else []
+    xd = os.path.join(scratch, 'xs')
+    os.makedirs(xd, exist_ok=True)
+    for i, (key, e) in enumerate(todo):
+        out['queries'] += 1
+        f = os.path.join(xd, 'q%d.smt2' % i)
+        open(f, 'w').write(e['smt2'])
+        f2 = os.path.join(xd, 'q%d_c.smt2' % i)
+        open(f2, 'w').write('(set-logic ALL)\n' + e['smt2'])
+        for name, cmd in (('z3', ['/usr/bin/z3', '-T:10', f]), ('cvc5', ['/usr/bin/cvc5', '--tlimit=10000', f2])):
+            try:
+                p = subprocess.run(cmd, stdout=subprocess.PIPE, stderr=subprocess.STDOUT, timeout=40)
+                o = p.stdout.decode(errors='replace')
+            except Exception as ex:
+                o = 'timeout'
+            first = o.strip().splitlines()[0].strip() if o.strip() else ''
+            if '(error' in o or first not in ('sat', 'unsat'):
+                out['z3_other' if name == 'z3' else 'cvc5_other'] += 1
+            elif first == e['result']:
+                out['z3_4_8_12_agree' if name == 'z3' else 'cvc5_agree'] += 1
+            else:
+                out['disagreements'].append({'harness': key, 'label': e['label'], 'z3_5_1': e['result'], name: first})
+    return out
 
 
 def _sum_covers(results):
